@@ -138,6 +138,7 @@ def explore(full, tier):
             acc.transitions += 1
             acc.traces += 1
             case = {"kind": "palette", "tier": tier, "history": [names[i] for i in hist], "op": name}
+            bystander = SP(CYCLE)
             o = build([ops[i][1] for i in hist])
             try:
                 o.set_HTMLColorResiduePalette(arg)
@@ -145,6 +146,10 @@ def explore(full, tier):
             except Exception:  # noqa
                 ok = False
             obs = observe_palette(o)
+            # the palette belongs to the object: a live bystander and an object created afterwards keep the default
+            if observe_palette(bystander) != T.DEFAULT_PALETTE or observe_palette(SP(CYCLE)) != T.DEFAULT_PALETTE:
+                acc.viol("palette-leaks-between-objects", "after %r + %s another object no longer renders with the default palette"
+                         % (case["history"], name), case)
             if valid is None:
                 acc.dont_care += 1
                 continue
@@ -217,12 +222,15 @@ def replay(case):
         check_render(case["seq"], model, o.get_HTMLColorString(), case, out)
         return out
     name, arg, valid = ops[case["op"]]
+    bystander = SP(CYCLE)
     try:
         o.set_HTMLColorResiduePalette(arg)
         ok = True
     except Exception:  # noqa
         ok = False
     obs = observe_palette(o)
+    if observe_palette(bystander) != T.DEFAULT_PALETTE or observe_palette(SP(CYCLE)) != T.DEFAULT_PALETTE:
+        out.append({"key": "palette-leaks-between-objects", "what": "another object no longer renders with the default palette", "case": case})
     if valid and not ok:
         out.append({"key": "valid-palette-rejected", "what": "valid palette %s rejected" % name, "case": case})
     elif not valid and ok:
